@@ -1,14 +1,31 @@
-"""What MANIFEST.json claims, per property.  Keep in step with coq/theories/props/*.v."""
-HOOK_COMMITS = ["a5c4c98"]
-NOTES = ("Every check = (1) rebuild of the property's Coq theorems and axiom audit, (2) differential correspondence of the "
-         "extracted model against the crate rebuilt from /repo's working tree, (3) intrinsic oracles. See DESIGN.md.")
-CLAIMED = {}
-NOT_CLAIMED = {}
+"""What MANIFEST.json claims, per property.  Generated from tools/families.py (the single
+place where each check's coverage is described) plus the notes below."""
+import os, sys
+sys.path.insert(0, os.path.dirname(os.path.abspath(__file__)))
+import families
 
-CLAIMED["C07"] = {
-    "text": "Proved in Coq for every width 1..64 and every i64 value: the model's truncation equals the value modulo 2^bits read as "
-            "two's complement (identity at 64 bits, unsigned residue below), result always an i64; virtual signals are 64 bits. "
-            "The model's mask is tied to src/data_row_iterator.rs by an exhaustive sweep over all 64 widths x boundary values on the input, "
-            "expected and virtual paths, in both overflow-check profiles (thorough), with an independent big-integer oracle.",
-    "note": "Trusted: Coq kernel; the hand-written model of bit_mask (validated exhaustively over widths, sampled over values); harness and generators. No axioms.",
+HOOK_COMMITS = ["a5c4c98"]
+NOTES = ("Every check = (1) rebuild of the property's Coq theorems (coq/theories/props/Cxx.v) with an axiom audit, (2) differential "
+         "correspondence of the extracted Gallina model against the crate rebuilt from /repo's working tree with the verif-hooks feature, "
+         "(3) intrinsic oracles on the implementation's traces. A mismatch or a broken proof is reported as VIOLATION with the concrete "
+         "input as replay (or no-failing-input-found). See DESIGN.md.")
+
+# properties registered only once their props/Cxx.v exists and compiles
+PARTIAL_NOTE = {
+    "C17": "partial by construction: rand's StdRng/gen_range is an oracle with its range contract as a hypothesis of the theorem",
+    "C16": "partial by construction: the XML text -> tree step is roxmltree's and is only sampled",
 }
+NOT_CLAIMED = {}
+CLAIMED = {}
+props_dir = os.path.join(os.path.dirname(os.path.abspath(__file__)), "..", "coq", "theories", "props")
+for pid, cfg in families.PROPS.items():
+    if not os.path.exists(os.path.join(props_dir, pid + ".v")):
+        continue
+    text = ("Proved in Coq 8.16.1, closed under the global context (no axioms), for all inputs: " + cfg.get("proved", "") +
+            ". Tie to the code, checked on every run: " + cfg.get("rule", "") +
+            ". Not proved, validated only: " + cfg.get("validated_only", "") + ".")
+    if pid in PARTIAL_NOTE:
+        text += " " + PARTIAL_NOTE[pid] + "."
+    note = ("Trusted: Coq kernel; the hand-written Gallina model of the named Rust functions (tied by the correspondence check, whose generators bound its strength); "
+            "extraction (ExtrOcamlBasic) and the OCaml/Rust/Python glue. " + " ".join(cfg.get("assumptions", [])))
+    CLAIMED[pid] = {"text": text, "note": note}
